@@ -66,6 +66,13 @@ func verif_harness_C06_hit_request_side() { verifC06Hit(true) }
 //verif:harness unwind=64 replay=none
 func verif_harness_C06_hit_response_side() { verifC06Hit(false) }
 
+// The same harness registered for C05: its timestamp/latency obligations
+// (timestamp between attack start and transport entry, latency covers the
+// transport time on every exit path) are part of that property.
+//
+//verif:harness unwind=64 replay=none
+func verif_harness_C05_hit_timestamps() { verifC06Hit(false) }
+
 func verifC06Hit(requestSide bool) {
 	if !verif_is_symbolic_run() {
 		return
